@@ -147,5 +147,12 @@ int main(int argc, char** argv) {
                       orgs<gil::jpeg_tag, gil::gray8_image_t, gil::gray8_image_t>("jpg", "gray8", w, h, rng, ji, true, false, "q100", false);
                       orgs<gil::jpeg_tag, gil::rgb8_image_t, gil::rgb8_planar_image_t>("jpg", "rgb8", w, h, rng, ji, true, false, "q100", true); }
     }
+    // JPEG streams longer than the writer's output buffer (1 KiB): larger constant and smooth images
+    for (auto d : {std::pair<int,int>{200, 200}, {64, 48}, {120, 33}}) {
+        if (!mine()) continue; vt::Rng rng(args.seed * 17 + d.first);
+        gil::image_write_info<gil::jpeg_tag> ji(100);
+        orgs<gil::jpeg_tag, gil::gray8_image_t, gil::gray8_image_t>("jpg", "gray8", d.first, d.second, rng, ji, true, false, "q100/large", false);
+        orgs<gil::jpeg_tag, gil::rgb8_image_t, gil::rgb8_planar_image_t>("jpg", "rgb8", d.first, d.second, rng, ji, true, false, "q100/large", true);
+    }
     J("End").num("events", vt::T().events).emit(); vt::T().close(); return 0;
 }
